@@ -127,7 +127,22 @@ func c16(w *core.World, r *core.Report) {
 	roles := roleFns(w)
 	lw := w.Locks(func(e core.Edge) bool {
 		// the closure handed to NewTransactionGuard, whatever it is called and wherever it is built
-		return roles[e.Caller] == "<guard cleanup>" && e.Callee != nil && core.FuncKey(e.Callee) == kCleanupTx
+		if e.Callee == nil || core.FuncKey(e.Callee) != kCleanupTx {
+			return false
+		}
+		if roles[e.Caller] == "<guard cleanup>" {
+			return true
+		}
+		// ... or a helper that is part of nothing but that closure
+		if !core.IsInlined(e.Caller) {
+			return false
+		}
+		for _, h := range core.Roots(e.Caller) {
+			if roles[h] != "<guard cleanup>" {
+				return false
+			}
+		}
+		return true
 	})
 
 	// ---- GUARDED-BY
@@ -173,9 +188,9 @@ func c16(w *core.World, r *core.Report) {
 			r.Check(after, "CLOSE-ONCE", site+" reset", w.InstrPos(c), fmt.Sprintf("after close the field must be reset (nil / fresh channel) on every path (path without reset: blocks %v)", tr))
 			// guarded by field != nil
 			okNil := false
-			for _, g := range core.GuardsOf(c) {
-				x, nilOnTrue, isNil := core.NilTest(g.If.Cond)
-				if isNil && core.FieldOf(x) == fk && nilOnTrue != g.CondTrue() {
+			for _, a := range core.GuardAtoms(c) {
+				x, nilOnTrue, isNil := core.NilTest(a.Cond)
+				if isNil && core.FieldOf(x) == fk && nilOnTrue != a.True {
 					okNil = true
 				}
 			}
